@@ -110,6 +110,13 @@ UNARY = [
     '[{"name":"alice","age":40},{"name":"bob","age":30}] | sort, min, max', '[{"b":1,"a":2},{"b":2,"a":1},{"a":2,"b":1}] | unique',
     '[{"b":1,"a":2},{"b":2,"a":1}] | group_by(.) | map(length)', '[{"b":[1],"a":[2]},{"b":[2],"a":[1]}] | sort_by(.), min_by(.), max_by(.)',
     '[{"c":0,"b":1,"a":2},{"c":0,"b":2,"a":1},{"a":0,"c":9}] | sort | map(keys_unsorted)', '[{"b":1,"a":2},{"b":2,"a":1}] | bsearch({"b":2,"a":1})',
+    # jq's sort is stable and unique keeps the first-seen representative: equal values that print differently (same
+    # members, different key order) must keep their relative order - on arrays long enough that a library sort routine
+    # no longer falls back to insertion sort (> 20 elements), not already sorted
+    '[range(40) | if . % 3 == 0 then {"a":1,"b":0} elif . % 3 == 1 then {"b":0,"a":0} else {"a":0,"b":0} end] | sort | map(keys_unsorted | .[0])',
+    '[range(64) | if . % 4 == 0 then {"a":1,"b":0} elif . % 4 == 1 then {"b":0,"a":1} elif . % 4 == 2 then {"b":0,"a":0} else {"a":0,"b":0} end] | unique | map(keys_unsorted | .[0])',
+    '[range(33) | {"k": (. % 2), "i": .}] | sort_by(.k) | map(.i)', '[range(50) | {"k": (5 - . % 5), "i": .}] | group_by(.k) | map(map(.i))',
+    '[range(45) | {"k": (. % 3), "i": .}] | unique_by(.k) | map(.i)', '[range(30) | [(. % 2), .]] | min_by(.[0]), max_by(.[0])',
 ]
 UNARY = [u for u in UNARY if u]
 
